@@ -126,15 +126,16 @@ func (it *RangeIterator) M__iter__() (Object, error) {
 
 // Range iterator next
 func (it *RangeIterator) M__next__() (Object, error) {
+	// Count the items rather than comparing with Stop: with a step
+	// near the limits of an int Index + Step can overflow
+	if it.Length <= 0 {
+		return nil, StopIteration
+	}
 	r := it.Index
-	if it.Step >= 0 && r >= it.Stop {
-		return nil, StopIteration
+	it.Length--
+	if it.Length > 0 {
+		it.Index += it.Step
 	}
-
-	if it.Step < 0 && r <= it.Stop {
-		return nil, StopIteration
-	}
-	it.Index += it.Step
 	return r, nil
 }
 
